@@ -78,44 +78,19 @@ def compute_null_space_matrix(matrix: torch.Tensor) -> torch.Tensor:
             # Convert back to original dtype before returning
             return H.to(matrix.dtype)
 
-    # If systematic form wasn't detected or verification failed, use SVD
-    U, S, V = torch.linalg.svd(matrix_float, full_matrices=True)
-
-    # Count non-zero singular values with small tolerance
-    tol = S.max() * max(matrix.size()) * torch.finfo(matrix_float.dtype).eps
-    rank = torch.sum(S > tol).item()
-
-    # The null space is spanned by the right singular vectors
-    # corresponding to the zero singular values
-    if rank < V.size(1):
-        null_space = V[rank:].clone()
-
-        # In GF(2), we need to ensure each element is binary
-        # Round to the nearest binary value
-        null_space = (null_space.abs() > 0.5).float()
-
-        # Ensure we have linearly independent rows
-        # and the result satisfies GH^T = 0
-        if null_space.size(0) > 0:
-            # Remove linearly dependent rows
-            reduced_null_space = torch.zeros((min(n - k, null_space.size(0)), n), dtype=matrix.dtype)
-            row_idx = 0
-
-            for i in range(null_space.size(0)):
-                # Check if current row is linearly independent from existing rows
-                if row_idx == 0 or not torch.all(torch.matmul(null_space[i], reduced_null_space[:row_idx].t().float()) % 2 == 0):
-                    if row_idx < reduced_null_space.size(0):
-                        reduced_null_space[row_idx] = null_space[i]
-                        row_idx += 1
-
-                # If we've found enough rows, we can stop
-                if row_idx == n - k:
-                    break
-
-            # Verify that the null space satisfies GH^T = 0
-            verification = torch.matmul(matrix_float, reduced_null_space.t()) % 2
-            if torch.all(verification < 0.01):  # Allow small numerical error
-                return reduced_null_space[:row_idx]
+    # If systematic form wasn't detected or verification failed, compute the null space
+    # by Gaussian elimination over GF(2)
+    if torch.all((matrix_float == 0) | (matrix_float == 1)):
+        reduced, pivots = _gf2_row_reduce(matrix_float)
+        rank = len(pivots)
+        free_columns = [j for j in range(n) if j not in pivots]
+        null_space = torch.zeros((n - rank, n), dtype=matrix.dtype)
+        for row_idx, free_col in enumerate(free_columns):
+            null_space[row_idx, free_col] = 1
+            for i, pivot_col in enumerate(pivots):
+                if reduced[i, free_col] == 1:
+                    null_space[row_idx, pivot_col] = 1
+        return null_space
 
     # If all else fails, fall back to a direct construction for common cases
 
@@ -265,69 +240,55 @@ def compute_right_pseudo_inverse(matrix: torch.Tensor) -> torch.Tensor:
         right_inv[:k, :] = torch.eye(k, dtype=matrix.dtype)
         return right_inv
 
-    # For the specific test case in the tests
-    if k == 3 and n == 7:
-        # Precomputed right pseudo-inverse for the test case
-        # This is the right inverse for G = [[1, 0, 0, 1, 1, 0, 1], [0, 1, 0, 1, 0, 1, 1], [0, 0, 1, 0, 1, 1, 1]]
-        right_inv = torch.zeros((7, 3), dtype=matrix.dtype)
-        right_inv[0, 0] = 1
-        right_inv[1, 1] = 1
-        right_inv[2, 2] = 1
-        return right_inv
-
-    # For other cases, try to find a right inverse using standard linear algebra
-    # Convert to float for numerical stability
-    matrix_float = matrix.float()
-
-    # Calculate pseudo-inverse
-    pseudo_inv = torch.linalg.pinv(matrix_float)
-
-    # Verify it satisfies G * G_right_inv = I in GF(2)
-    result = torch.matmul(matrix_float, pseudo_inv)
-    result_binary = (result.round() % 2).type(matrix.dtype)
-
-    # Check if it's close to the identity matrix in GF(2)
-    identity = torch.eye(k, dtype=matrix.dtype)
-
-    if torch.allclose(result_binary, identity):
-        # Return binary version of the pseudo-inverse
-        return (pseudo_inv.round() % 2).type(matrix.dtype)
-
-    # If that doesn't work, try a more direct approach for binary matrices
-    # Construct all possible right inverses and test them
-    found_inv = False
-
-    # For small matrices, we can do an exhaustive search
-    if n * k <= 30:  # Only practical for small matrices
-        # Generate candidates for each column of the right inverse
-        candidates = []
-        for j in range(k):
-            col_candidates = []
-            # Try all possible binary vectors of length n
-            for i in range(2**n):
-                col = torch.tensor([(i >> bit) & 1 for bit in range(n)], dtype=matrix.dtype)
-                # Check if this column satisfies G * col = e_j (jth unit vector)
-                result = torch.matmul(matrix, col) % 2
-                ej = torch.zeros(k, dtype=matrix.dtype)
-                ej[j] = 1
-                if torch.all(result == ej):
-                    col_candidates.append(col)
-
-            if not col_candidates:
-                # No solution found for this column
-                found_inv = False
-                break
-
-            candidates.append(col_candidates[0])  # Just take the first candidate
-            found_inv = True
-
-        if found_inv:
-            # Combine the columns to form the right inverse
-            right_inv = torch.stack(candidates, dim=1)
+    # General case: Gaussian elimination over GF(2) on [G | I_k].  With E the accumulated row
+    # operations, E * G has identity columns at the pivot positions, so placing the rows of E
+    # at those positions gives a matrix R with G * R = I_k (mod 2).
+    if torch.all((matrix == 0) | (matrix == 1)):
+        augmented = torch.cat([matrix.float(), torch.eye(k)], dim=1)
+        reduced, pivots = _gf2_row_reduce(augmented, num_cols=n)
+        if len(pivots) == k:
+            right_inv = torch.zeros((n, k), dtype=matrix.dtype)
+            for i, pivot_col in enumerate(pivots):
+                right_inv[pivot_col, :] = reduced[i, n:].to(matrix.dtype)
             return right_inv
 
-    # If all else fails, use the binary version of the pseudo-inverse and hope for the best
+    # Rank-deficient or non-binary input: no right inverse exists in GF(2); use the
+    # binarised Moore-Penrose pseudo-inverse as a best effort
+    pseudo_inv = torch.linalg.pinv(matrix.float())
     return (pseudo_inv.abs() > 0.5).type(matrix.dtype)
+
+
+def _gf2_row_reduce(matrix: torch.Tensor, num_cols: Any = None) -> Tuple[torch.Tensor, list]:
+    """Reduced row echelon form of a binary matrix over GF(2).
+
+    Args:
+        matrix: Binary input matrix
+        num_cols: Only the first ``num_cols`` columns are searched for pivots (default: all)
+
+    Returns:
+        Tuple of the reduced matrix (as float) and the list of pivot columns, one per non-zero row
+    """
+    A = matrix.float().clone()
+    rows, cols = A.shape
+    if num_cols is None:
+        num_cols = cols
+    pivots: list = []
+    r = 0
+    for c in range(num_cols):
+        if r == rows:
+            break
+        candidates = torch.nonzero(A[r:, c], as_tuple=False).view(-1)
+        if candidates.numel() == 0:
+            continue
+        p = r + int(candidates[0])
+        if p != r:
+            A[[r, p]] = A[[p, r]]
+        for i in range(rows):
+            if i != r and A[i, c] == 1:
+                A[i] = (A[i] + A[r]) % 2
+        pivots.append(c)
+        r += 1
+    return A, pivots
 
 
 @ModelRegistry.register_model("linear_block_code_encoder")
